@@ -10,6 +10,7 @@ import Dashu.Proofs.Conv.ModeFlag
 import Dashu.Proofs.Conv.ToFloat
 import Dashu.Proofs.Conv.ToFloatHalf
 import Dashu.Proofs.Conv.RangeExit
+import Dashu.Proofs.Conv.RangeExitModes
 /-
   C06 — Conversions are lossless or refused; lossy ones are correctly rounded and say so.
 
@@ -1061,5 +1062,43 @@ theorem fbig_to_float_range_underflow_directed_counterexample :
     rangeExit into32 ⟨1, -200⟩ = some (0, some .NoOp) ∧
     ieeeRoundRat .binary32 .up (floatAsRat 2 1 (-200)).1 (floatAsRat 2 1 (-200)).2 = (1, .pos) := by
   decide +kernel
+
+/-- **the decided underflow in EVERY mode, every base** (round 7; weakens the mode hypothesis of
+    `fbig_to_float_range_underflow_is_required` to none): when the range test answers `Some(false)` the code returns `±0`
+    with `NoOp`; the specification — ONE rounding of the exact rational value `s·B^e` — is `±0` flagged toward zero,
+    EXCEPT when the mode rounds a magnitude of this sign up (`Away`; `Up` for `s > 0`; `Down` for `s < 0`), where it is
+    the least subnormal `±2^qmin` (bits `sign + 1`) flagged away from zero — independent of `e`.  So the returned bits are
+    the required ones IFF the mode is not one of those three cases (= the predicate of the recorded finding "directed
+    modes not honoured below the normal range" on this arm), and the driver's exponent clamp on the underflow side is
+    justified in every mode (the required result does not depend on `e`). -/
+theorem fbig_to_float_range_underflow_every_mode (B : Nat) (hB : 2 ≤ B) (mode : Conv.Mode) (s e : Int) (hs : s ≠ 0) :
+    (exponentOutOfRange ⟨s, e⟩ into32.infExp into32.zeroExp = some false →
+      rangeExit into32 ⟨s, e⟩ = some ((if s < 0 then Ieee.binary32.signBit else 0), some .NoOp) ∧
+      ieeeRoundRat .binary32 mode (floatAsRat B s e).1 (floatAsRat B s e).2 =
+        (if mode = .away ∨ (mode = .up ∧ ¬ s < 0) ∨ (mode = .down ∧ s < 0)
+         then ((if s < 0 then Ieee.binary32.signBit else 0) + 1, Flag.pos.flipIf (decide (s < 0)))
+         else ((if s < 0 then Ieee.binary32.signBit else 0), Flag.neg.flipIf (decide (s < 0)))) ∧
+      ((ieeeRoundRat .binary32 mode (floatAsRat B s e).1 (floatAsRat B s e).2).1 =
+          (if s < 0 then Ieee.binary32.signBit else 0) ↔
+        ¬ (mode = .away ∨ (mode = .up ∧ ¬ s < 0) ∨ (mode = .down ∧ s < 0)))) ∧
+    (exponentOutOfRange ⟨s, e⟩ into64.infExp into64.zeroExp = some false →
+      rangeExit into64 ⟨s, e⟩ = some ((if s < 0 then Ieee.binary64.signBit else 0), some .NoOp) ∧
+      ieeeRoundRat .binary64 mode (floatAsRat B s e).1 (floatAsRat B s e).2 =
+        (if mode = .away ∨ (mode = .up ∧ ¬ s < 0) ∨ (mode = .down ∧ s < 0)
+         then ((if s < 0 then Ieee.binary64.signBit else 0) + 1, Flag.pos.flipIf (decide (s < 0)))
+         else ((if s < 0 then Ieee.binary64.signBit else 0), Flag.neg.flipIf (decide (s < 0)))) ∧
+      ((ieeeRoundRat .binary64 mode (floatAsRat B s e).1 (floatAsRat B s e).2).1 =
+          (if s < 0 then Ieee.binary64.signBit else 0) ↔
+        ¬ (mode = .away ∨ (mode = .up ∧ ¬ s < 0) ∨ (mode = .down ∧ s < 0)))) :=
+  ⟨fun h => rangeExit_under_every_mode into32 into32_compat B hB mode s e hs h,
+   fun h => rangeExit_under_every_mode into64 into64_compat B hB mode s e hs h⟩
+
+-- non-vacuity: decided inputs in bases 10 and 3, both branches of the mode condition occur (Down on a negative value rounds
+-- the magnitude up, Down on a positive one does not), and the kernel agrees with the closed form on a concrete input
+example : exponentOutOfRange ⟨7, -176 - 1⟩ into32.infExp into32.zeroExp = some false ∧
+    exponentOutOfRange ⟨-5, -(2 ^ 63)⟩ into64.infExp into64.zeroExp = some false ∧
+    ieeeRoundRat .binary32 .down (floatAsRat 10 (-7) (-177)).1 (floatAsRat 10 (-7) (-177)).2 = (0x80000001, .neg) ∧
+    ieeeRoundRat .binary32 .down (floatAsRat 10 7 (-177)).1 (floatAsRat 10 7 (-177)).2 = (0, .neg) ∧
+    ieeeRoundRat .binary32 .away (floatAsRat 3 7 (-177)).1 (floatAsRat 3 7 (-177)).2 = (1, .pos) := by decide +kernel
 
 end Dashu.Props.C06
